@@ -144,6 +144,13 @@ namespace hv
                     {
                         auto w = in.as_window();
                         s += ",\"size\":" + std::to_string(w.size());
+                        // the window's own element list, element times and the element evicted by this tick (if any)
+                        s += ",\"wv\":[";
+                        { bool f = true; for (auto &&v : w.values()) { if (!f) s += ","; f = false; s += jstr(v); } }
+                        s += "],\"wt\":[";
+                        { bool f = true; for (auto &&t : w.value_times()) { if (!f) s += ","; f = false; s += tstr(t); } }
+                        s += "]";
+                        if (w.has_removed_value()) s += ",\"wrem\":" + jstr(w.removed_value());
                         break;
                     }
                     default: break;
